@@ -2,6 +2,7 @@ import MdIt.Drv.Ruler
 import MdIt.Drv.Conc
 import MdIt.Drv.Inst
 import MdIt.Drv.World
+import MdIt.Drv.Token
 open MdIt
 
 def handle (line : String) : String :=
@@ -11,6 +12,8 @@ def handle (line : String) : String :=
   | "conc" :: rest => Drv.concLine rest
   | "reset" :: rest => Drv.resetLine rest
   | "world" :: rest => Drv.worldLine rest
+  | "dictrt" :: rest => Drv.dictrtLine rest
+  | "tree" :: rest => Drv.treeLine rest
   | _ => "bad-request"
 
 partial def loop (hin hout : IO.FS.Stream) : IO Unit := do
